@@ -226,7 +226,7 @@ Definition after_inst (rest : str) : option str :=
   | None => None
   end.
 
-(* greedy  .*inst=\[  — the LAST occurrence of 'inst=[' that still admits the tail *)
+(* greedy  .*inst=\[  — the LAST occurrence of 'inst=[' that still allows the tail *)
 Fixpoint last_inst (rest : str) : option str :=
   match rest with
   | [] => None
